@@ -354,6 +354,74 @@ def isolated(fn, *args):
 
 
 # --------------------------------------------------------------------------
+# another interpreter configuration as an ambient variable of the simulated process
+# --------------------------------------------------------------------------
+
+_CHILD_SRC = r"""
+import importlib, os, pickle, sys, traceback
+path = sys.argv[3]
+try:
+    args = pickle.loads(sys.stdin.buffer.read())
+    mod = importlib.import_module(sys.argv[1])
+    try:
+        out = ("ok", getattr(mod, sys.argv[2])(*args))
+    except Exception as e:
+        out = ("harness" if type(e).__name__ == "HarnessError" else "error", traceback.format_exc()[-1500:])
+except BaseException:
+    out = ("error", traceback.format_exc()[-1500:])
+with open(path, "wb") as f:
+    pickle.dump(out, f, protocol=4)
+"""
+
+
+def child_opt_level() -> int:
+    """optimisation level of THIS interpreter when it was started by in_child_interpreter (else 0)"""
+    return int(os.environ.get("VERIF_CHILD_OPT", "0") or 0) if sys.flags.optimize else 0
+
+
+def opt_suffix() -> str:
+    return ":python-O" if child_opt_level() else ""
+
+
+def in_child_interpreter(module: str, func: str, args, optimize: int = 1, timeout_s: float = 1500.0):
+    """module.func(*args) in a NEW interpreter started with -O (optimize=1) or -OO (2): `assert` statements and
+    `if __debug__:` blocks of the code under test are compiled away there, as for any user who runs with PYTHONOPTIMIZE.
+    The result comes back pickled in a scratch file that is removed at once (stdout stays free for what the code under test prints)."""
+    import pickle
+    import subprocess
+    import tempfile
+    env = dict(os.environ)
+    env["PYTHONPATH"] = VERIF_DIR
+    env["VERIF_CHILD_OPT"] = str(optimize)
+    env.pop("PYTHONOPTIMIZE", None)
+    env["PYTHONPYCACHEPREFIX"] = "/var/tmp/verif-pyc-%d" % os.getuid()     # no .opt-N.pyc files in /repo or /verif
+    fd, path = tempfile.mkstemp(prefix="verif-child-", dir="/var/tmp")
+    os.close(fd)
+    try:
+        cmd = [sys.executable, "-O" if optimize == 1 else "-OO", "-c", _CHILD_SRC, module, func, path]
+        p = subprocess.Popen(cmd, stdin=subprocess.PIPE, stdout=subprocess.DEVNULL, stderr=subprocess.PIPE, env=env, cwd=VERIF_DIR)
+        try:
+            _, err = p.communicate(pickle.dumps(list(args), protocol=4), timeout=timeout_s)
+        except subprocess.TimeoutExpired:
+            p.kill()
+            p.communicate()
+            raise HarnessError(f"child interpreter ({module}.{func}) did not finish within {timeout_s:.0f}s")
+        with open(path, "rb") as f:
+            data = f.read()
+    finally:
+        try:
+            os.unlink(path)
+        except OSError:
+            pass
+    if p.returncode != 0 or not data:
+        raise HarnessError(f"child interpreter ({module}.{func}) died (status {p.returncode}): {err.decode('utf-8', 'replace')[-600:]}")
+    kind, out = pickle.loads(data)
+    if kind != "ok":
+        raise HarnessError(f"child interpreter ({module}.{func}): {out}")
+    return out
+
+
+# --------------------------------------------------------------------------
 # delta debugging
 # --------------------------------------------------------------------------
 
